@@ -389,6 +389,7 @@ func c15RunSchedule(c *Ctx, ci *ChainImpl, l *lib.Lean, scName string, prefix, c
 		}
 		c.R.Fail(lib.Failure{Case: scName, Ops: append(append([]string{}, ops...), fmt.Sprintf("# executed schedule %v", executed)), What: what, Expected: exp, Observed: obs, Signature: sig})
 	}
+	deadlocked := false
 	for nDone < n {
 		var avail []int
 		for i := 0; i < n; i++ {
@@ -398,6 +399,7 @@ func c15RunSchedule(c *Ctx, ci *ChainImpl, l *lib.Lean, scName string, prefix, c
 		}
 		if len(avail) == 0 {
 			fail("no submitter can make progress (deadlock)", "", "", "c15-deadlock")
+			deadlocked = true
 			break
 		}
 		pick := avail[0]
@@ -424,9 +426,27 @@ func c15RunSchedule(c *Ctx, ci *ChainImpl, l *lib.Lean, scName string, prefix, c
 			bothStarted = true
 		}
 		sc.goCh[pick] <- struct{}{}
-		// wait for this thread's next event
-		for !waiting[pick] && !finished[pick] {
-			absorb(<-sc.events)
+		// wait for this thread's next event; a thread that made its call and then blocks inside the service
+		// (on a lock another submitter holds while it waits for the scheduler) sends none: go on without it
+		blockedAfterCall := false
+		for !waiting[pick] && !finished[pick] && !blockedAfterCall {
+			others := false
+			for i := 0; i < n; i++ {
+				others = others || (i != pick && waiting[i])
+			}
+			grace := 20 * time.Second
+			if others {
+				grace = 500 * time.Millisecond
+			}
+			select {
+			case ev := <-sc.events:
+				absorb(ev)
+			case <-time.After(grace):
+				blockedAfterCall = true
+			}
+		}
+		if blockedAfterCall {
+			c.R.Count("a submitter blocked inside the service after a repository call (lock taken after the first repository call)", 1)
 		}
 		settle()
 		implStep := call
@@ -467,6 +487,9 @@ func c15RunSchedule(c *Ctx, ci *ChainImpl, l *lib.Lean, scName string, prefix, c
 		if dumpStr(rows) != mdump && c.Driver != "none" {
 			c.R.Disagree(lib.Disagreement{Case: scName, Ops: append(append([]string{}, ops...), "dump"), Op: "dump", Impl: dumpStr(rows), Model: mdump})
 		}
+	}
+	if deadlocked {
+		return // the blocked goroutines are abandoned
 	}
 	wg.Wait()
 	rows, e := ci.Dump()
